@@ -480,6 +480,14 @@ def validate_random_traces(rep, prop, w, n, sd):
         if broker_random.max_abs_int(tr) < 2 ** 31 - 1:
             traces.append(tr)
     rep.cov["large_volume_traces"] = nbig
+    # many orders (17-40) pending at one update
+    nbatch = max(6, n // 25)
+    for i in range(nbatch):
+        tr = broker_random.gen_batch_trace(sd * 1013 + i)
+        tr["id"] = 800000000 + sd * 1013 + i
+        if broker_random.max_abs_int(tr) < 2 ** 31 - 1:
+            traces.append(tr)
+    rep.cov["large_batch_traces"] = nbatch
     nvalid = 0
     nev = 0
     for k in range(0, len(traces), 300):
